@@ -72,6 +72,29 @@ def cmpPk (a b : List (List Char)) : Ordering := cmpPkF (pkFuel a b) a b
 
 def parsePk (s : List Char) : List (List Char) := splitOn '.' (canonPk s)
 
-def packagistFam : Family := ⟨List (List Char), fun s => .ok (parsePk s), fun v w => .ord (cmpPk v w)⟩
+/-! ### as the Go code writes it, with failing index / slice sites (`none` = run-time panic) -/
+
+/-- `comparePackagistComponents` as written (version-packagist.go:79-113): `a[i]`, `b[i]` for
+`i < min(len(a), len(b))`; then `a[len(b)]` and `a[len(b):]` behind `len(a) > len(b)` (resp. the
+mirror image), and the recursive call against `["#"]`. One unit of fuel per CALL. -/
+def cmpPkGo : Nat → List (List Char) → List (List Char) → Option Ordering
+  | 0, _, _ => some .eq
+  | fuel + 1, a, b =>
+    (lexLoop pkElem a b (min a.length b.length) 0).bind fun c =>
+      if c ≠ .eq then some c
+      else if b.length < a.length then
+        (goIndex a b.length).bind fun next =>
+          if (toBig next).isSome then some .gt
+          else (goSlice a b.length a.length).bind fun rest => cmpPkGo fuel rest [['#']]
+      else if a.length < b.length then
+        (goIndex b a.length).bind fun next =>
+          if (toBig next).isSome then some .lt
+          else (goSlice b a.length b.length).bind fun rest => cmpPkGo fuel [['#']] rest
+      else some .eq
+
+/-- every recursive call is on a strictly shorter tail against `["#"]` (proved adequate: `cmpPkGo_eq`) -/
+def cmpPkGoTop (a b : List (List Char)) : Option Ordering := cmpPkGo (a.length + b.length + 2) a b
+
+def packagistFam : Family := ⟨List (List Char), fun s => .ok (parsePk s), fun v w => .ofGo (cmpPkGoTop v w)⟩
 
 end Scalibr.Semantic
